@@ -63,12 +63,19 @@ def snapshot(d):
 
 # --------------------------------------------------------------------------- recorder
 
+class _Short(Exception):
+    """raised by Recorder.tick to the proxy: this flush is a short write"""
+
+
 class _Proxy:
     """Stand-in for the file object returned by open(path, 'w'...): user-space buffer that
     reaches the real file only on flush/close (or partially, at the crash point)."""
 
-    def __init__(self, rec, path, kind, flags, perm, binary, encoding):
+    def __init__(self, rec, path, kind, flags, perm, binary, encoding, raw=False):
         self.rec = rec
+        self.raw = raw              # buffering=0: every write goes straight to the kernel, short counts are returned
+        self.full = False           # the device took a short write: nothing more gets through
+        self.last_short = None
         self.path = path
         self.name = path
         self.mode = "wb" if binary else "w"
@@ -85,7 +92,7 @@ class _Proxy:
             self.fd = rec.real["os.open"](path, flags, perm)
 
     @staticmethod
-    def from_mode(rec, path, mode, encoding):
+    def from_mode(rec, path, mode, encoding, buffering=-1):
         """open(path, mode): which of create / truncate / append the mode asks for."""
         if "w" in mode:
             kind, flags = "trunc", os.O_WRONLY | os.O_CREAT | os.O_TRUNC
@@ -97,7 +104,7 @@ class _Proxy:
             kind, flags = "notrunc", os.O_WRONLY
         else:
             raise NotImplementedError("recorder: unsupported open mode %r" % mode)
-        return _Proxy(rec, path, kind, flags, 0o666, "b" in mode, encoding)
+        return _Proxy(rec, path, kind, flags, 0o666, "b" in mode, encoding, raw=(buffering == 0 and "b" in mode))
 
     @staticmethod
     def from_flags(rec, path, flags, perm):
@@ -118,9 +125,18 @@ class _Proxy:
         raw = bytes(data) if self.binary else data.encode(self.encoding)
         if self.rec.tick(("write", self.rec.rel(self.path), raw)):
             self.pending += raw
+        if self.raw:
+            # unbuffered: one write(2) right away; a short count is what the caller gets back
+            self.last_short = None
+            self.flush()
+            if self.last_short is not None:
+                return self.last_short
         return n
 
     def drain(self, upto=None):
+        if self.full:
+            self.pending = b""
+            return
         data = self.pending if upto is None else self.pending[:upto]
         if self.fd is not None:
             view = memoryview(data)
@@ -130,8 +146,13 @@ class _Proxy:
         self.pending = self.pending[len(data):]
 
     def flush(self):
-        if self.rec.tick(("flush", self.rec.rel(self.path))):
-            self.drain()
+        try:
+            if self.rec.tick(("flush", self.rec.rel(self.path)), self):
+                self.drain()
+        except _Short as sh:
+            self.last_short = sh.args[0]
+            if not self.raw:        # the buffered writer retries the remainder and is told there is no room
+                raise OSError(errno.ENOSPC, "injected: no space left on device") from None
 
     def fileno(self):
         return self.fd if self.fd is not None else self.vfd
@@ -139,12 +160,19 @@ class _Proxy:
     def close(self):
         if self.closed:
             return
-        if self.rec.tick(("close", self.rec.rel(self.path))):
-            self.drain()
+        short = False
+        try:
+            if self.rec.tick(("close", self.rec.rel(self.path)), self):
+                self.drain()
+        except _Short:
+            short = True            # the flush inside close() was short; the file is closed all the same
+            self.rec.tick(("close", self.rec.rel(self.path)))
         self.closed = True
         if self.fd is not None:
             self.rec.real["os.close"](self.fd)
             self.fd = None
+        if short and not self.raw:
+            raise OSError(errno.ENOSPC, "injected: no space left on device")
 
     def writable(self):
         return True
@@ -160,11 +188,12 @@ class _Proxy:
 class Recorder:
     """Records (and, from the crash point on, drops) the file-system effects under `root`."""
 
-    def __init__(self, root, crash=None, fault=None):
+    def __init__(self, root, crash=None, fault=None, short=None):
         self.root = os.path.realpath(root)
         self.crash = crash              # (k, j): k calls completed, j pending bytes written
         self.fault = fault              # f: call number f (0-based) fails with OSError instead of being carried out
         self.fault_done = False
+        self.short = short              # with fault=f: call f, if it is a flush, is a short write of that many bytes
         self.ops = []
         self.pending_before = []        # pending bytes of open files before op i
         self.proxies = []
@@ -203,14 +232,26 @@ class Recorder:
                 x.drain(j)
         self.frozen = True
 
-    def tick(self, op):
+    def tick(self, op, proxy=None):
         """Register one call; returns True when its effect is to be carried out."""
         if not self.frozen:
             if self.crash is not None and len(self.ops) == self.crash[0]:
                 self.freeze(self.crash[1])
             elif self.fault is not None and not self.fault_done and len(self.ops) == self.fault:
                 self.fault_done = True
-                raise OSError(errno.EIO, "injected: %s fails" % op[0])
+                if self.short is None:
+                    raise OSError(errno.EIO, "injected: %s fails" % op[0])
+                if proxy is not None and op[0] in ("flush", "close") and proxy.pending and not proxy.full:
+                    k = min(self.short, len(proxy.pending))
+                    self.pending_before.append(self.pending())
+                    self.ops.append(("flush-short", op[1], k))
+                    proxy.drain(k)
+                    proxy.pending = b""
+                    proxy.full = True
+                    raise _Short(k)
+                self.fault_done = "not-applicable"      # a short write needs a flush with data
+                self.pending_before.append(self.pending())
+                self.ops.append(op)
             else:
                 self.pending_before.append(self.pending())
                 self.ops.append(op)
@@ -226,7 +267,7 @@ class Recorder:
                 x.encoding = encoding or "utf-8"
                 return x
         elif self.watched(file) and any(c in mode for c in "wax+"):
-            return _Proxy.from_mode(self, os.fspath(file), mode, encoding)
+            return _Proxy.from_mode(self, os.fspath(file), mode, encoding, buffering)
         return self.real["open"](file, mode, buffering, encoding, errors, newline, closefd, opener)
 
     def _osopen(self, path, flags, mode=0o777, *a, **kw):
@@ -553,14 +594,14 @@ class Driver:
         self.run(st.load())
         return self.contents(st)
 
-    def save_with(self, sc, old_bytes, stale, crash, fault=None):
+    def save_with(self, sc, old_bytes, stale, crash, fault=None, short=None):
         """Run the real save of sc['new'] on top of the old directory under the recorder."""
         d = self.restore(old_bytes, stale)
         st = self.storage(d)
         self.run(st.load())
         self.set_devices(st, sc["new"])
         want = self.contents(st)
-        rec = Recorder(d, crash, fault)
+        rec = Recorder(d, crash, fault, short)
         err = None
         with rec:
             try:
@@ -594,6 +635,11 @@ def expand(ctx, drv, sc, limit):
                 o = rec.ops[f]
                 if o[0] != "close":
                     out.append((dict(c, name="%s:fault-at-%d-%s" % (c["name"], f, o[0]), fault=f), min(limit, 24)))
+                # the kernel takes only part of the data handed over by this flush
+                p = rec.pending_before[f]
+                if o[0] in ("flush", "close") and p:
+                    for k in sorted({0, 1, p // 2, p - 1}):
+                        out.append((dict(c, name="%s:short-write-%d-of-%d-at-%d" % (c["name"], k, p, f), fault=f, short=k), 8))
     return out
 
 
@@ -694,6 +740,8 @@ def cop(op, names):
         return "Write %d %s" % (path_no(names, op[1]), common.cbytes(op[2]))
     if k in ("flush", "fsync", "close"):
         return "%s %d" % (k.capitalize(), path_no(names, op[1]))
+    if k == "flush-short":
+        return "FlushShort %d %d" % (path_no(names, op[1]), op[2])
     if k == "rename":
         return "Rename %d %d" % (path_no(names, op[1]), path_no(names, op[2]))
     return None
@@ -781,6 +829,7 @@ def judge(loaded, load_err, expect_old, expect_new, ops, tgt=None, new_bytes=b""
 def run_scenario(ctx, drv, sc, limit, cases, only_crash=None):
     use_names(drv, sc)
     fault = sc.get("fault")
+    short = sc.get("short")
     old_bytes, stale = drv.prepare(sc)
     # what the previous file means
     d0 = drv.restore(old_bytes, stale)
@@ -799,9 +848,9 @@ def run_scenario(ctx, drv, sc, limit, cases, only_crash=None):
     except Exception as ex:
         ctx.tie_broken("save-raises", json.dumps({"scenario": sc["name"], "error": "%s: %s" % (type(ex).__name__, ex)}))
         return
-    d, full, files_full, expect_new, err = drv.save_with(sc, old_bytes, stale, None, fault)
-    if fault is not None and not full.fault_done:
-        return                      # the save issues fewer calls than that
+    d, full, files_full, expect_new, err = drv.save_with(sc, old_bytes, stale, None, fault, short)
+    if fault is not None and full.fault_done is not True:
+        return                      # the save issues fewer calls than that / no flush with data at that call
     if fault is not None:
         ctx.count("fault-injected")
         ctx.count("fault:save-%s" % ("raised" if err else "returned"))
@@ -827,7 +876,7 @@ def run_scenario(ctx, drv, sc, limit, cases, only_crash=None):
         if nbad >= MAX_VIOLATIONS or (only_crash is None and time.time() > ctx.extra.get("deadline", 1e18)):
             ctx.count("scenario-cut-short")
             break
-        d, rec, files, _want, err = drv.save_with(sc, old_bytes, stale, (k, j), fault)
+        d, rec, files, _want, err = drv.save_with(sc, old_bytes, stale, (k, j), fault, short)
         ctx.traces += 1
         tgt = files.get(TARGET)
         tmp = files.get(TMPNAME)
@@ -850,6 +899,10 @@ def run_scenario(ctx, drv, sc, limit, cases, only_crash=None):
                  if (j in (0, 7) and k in (1, 2, 6)) else None)
         ctx.count("crash-after:%s" % (ops[k - 1][0] if 0 < k <= len(ops) else "nothing" if k == 0 else "end"))
         bad = judge(loaded, load_err, expect_old, expect_new, ops, tgt, new_bytes, stale)
+        if bad and short is not None and tgt is not None and tgt != new_bytes and tgt == new_bytes[:len(tgt)] \
+                and bad[0] == "C15:save:not-atomic":
+            bad = ("C15:save:short-write-moved-in-place",
+                   "the kernel accepted only part of the data (short write); the partially written temporary file was moved over the storage file")
         if bad:
             nbad += 1
             ctx.violation(bad[0], bad[1], {
@@ -864,7 +917,9 @@ def run_scenario(ctx, drv, sc, limit, cases, only_crash=None):
     else:
         cases.append((sc, "(%s, %s, %s, %s, %s)" % (
             common.copt(old_bytes, common.cbytes), common.copt(stale, common.cbytes),
-            common.copt(fault, str), common.clist(cops),
+            "None" if fault is None else "(Some (%d, %s))" % (
+                fault, common.copt(next((o[2] for o in ops if o[0] == "flush-short"), None) if short is not None else None, str)),
+            common.clist(cops),
             common.clist(["(%d, %d, %s, %s)" % (k, j, cdesc(a), cdesc(b)) for (k, j, a, b) in obs])),
             op_names(ops)))
 
@@ -879,7 +934,7 @@ def run(ctx):
     ctx.rule = ("per scenario (old storage file | none, optional stale temporary file - also longer than / equal to / shorter than "
                 "the new content, and every directory an interrupted earlier save of a longer generation leaves behind - , new settings, "
                 "storage file names with suffix .tmp / no suffix / several dots, the storage path a regular file / symbolic link (same dir, other dir, dangling) / hard link / "
-                "inside a symlinked directory, optionally ONE call of the save made to fail with OSError): every crash point "
+                "inside a symlinked directory, optionally ONE call of the save made to fail with OSError or, for a flush, to be a short write): every crash point "
                 "(k recorded file-system calls completed, j bytes of the pending buffer written; all j up to %d per buffer, "
                 "sampled above) of the real FileStorage.save(); non-trivial = crash strictly inside the save; "
                 "distinct by (scenario, k, j, resulting directory)" % limit)
@@ -906,7 +961,7 @@ def run(ctx):
     for i, (sc, term, _names) in enumerate(cases):
         txt = ("From Coq Require Import List NArith. Import ListNotations.\n"
                "From PV Require Import Common.Cases C15.Model.\n"
-               "Definition cases : list (option bytes * option bytes * option nat * list op * list (nat * nat * desc * desc)) := [\n%s\n].\n"
+               "Definition cases : list (option bytes * option bytes * option (nat * option nat) * list op * list (nat * nat * desc * desc)) := [\n%s\n].\n"
                "Eval vm_compute in (bad_indices check_case cases).\n" % term)
         items.append(("cases_%03d" % i, txt))
     res = common.coq_run_many(items, ctx.pid, timeout=150 if not ctx.thorough else 600)
